@@ -445,7 +445,13 @@ type Web struct {
 }
 
 // StartWeb launches PProf -http in a goroutine and waits until the handlers are registered.
-func StartWeb(q Req) (*Web, error) {
+func StartWeb(q Req) (*Web, error) { return startWeb(q, true) }
+
+// StartWebNoCapture is StartWeb without redirecting the process's stdout for the lifetime of the server
+// (the redirection is process-wide and exclusive: a second server started meanwhile would wait for it).
+func StartWebNoCapture(q Req) (*Web, error) { return startWeb(q, false) }
+
+func startWeb(q Req, capture bool) (*Web, error) {
 	w := &Web{done: make(chan struct{}), stop: make(chan struct{})}
 	ready := make(chan struct{})
 	q.HTTP = func(args *plugin.HTTPServerArgs) error {
@@ -460,7 +466,7 @@ func StartWeb(q Req) (*Web, error) {
 	q.Flags["http"] = "localhost:0"
 	q.Flags["no_browser"] = "true"
 	go func() {
-		w.Res = Run(q)
+		w.Res = run(q, capture)
 		close(w.done)
 	}()
 	select {
